@@ -143,7 +143,9 @@ func compare[T int | int32 | int64 | int16 | int8 | uint | uint32 | uint64 | uin
 	switch t := v.(type) {
 	case int, int32, int64, int16, int8, uint, uint32, uint64, uint16, byte, float32, float64:
 		{
-			return Cmp(a, t)
+			// by value: converting the right operand to the left operand's
+			// type would truncate fractions and wrap negative numbers
+			return cmpNumbers(a, t)
 		}
 	case string:
 		{
@@ -151,4 +153,86 @@ func compare[T int | int32 | int64 | int16 | int8 | uint | uint32 | uint64 | uin
 		}
 	}
 	return strings.Compare(fmt.Sprintf("%v", a), fmt.Sprintf("%v", v))
+}
+
+// number is a numeric value split by kind: a signed integer, an unsigned
+// integer or a float
+type number struct {
+	kind int // 0 signed, 1 unsigned, 2 float
+	i    int64
+	u    uint64
+	f    float64
+}
+
+func toNumber(v any) number {
+	switch t := v.(type) {
+	case int:
+		return number{kind: 0, i: int64(t)}
+	case int8:
+		return number{kind: 0, i: int64(t)}
+	case int16:
+		return number{kind: 0, i: int64(t)}
+	case int32:
+		return number{kind: 0, i: int64(t)}
+	case int64:
+		return number{kind: 0, i: t}
+	case uint:
+		return number{kind: 1, u: uint64(t)}
+	case uint8:
+		return number{kind: 1, u: uint64(t)}
+	case uint16:
+		return number{kind: 1, u: uint64(t)}
+	case uint32:
+		return number{kind: 1, u: uint64(t)}
+	case uint64:
+		return number{kind: 1, u: t}
+	case float32:
+		return number{kind: 2, f: float64(t)}
+	case float64:
+		return number{kind: 2, f: t}
+	}
+	return number{}
+}
+
+func (n number) float() float64 {
+	switch n.kind {
+	case 0:
+		return float64(n.i)
+	case 1:
+		return float64(n.u)
+	}
+	return n.f
+}
+
+func order[T int64 | uint64 | float64](a, b T) int {
+	if a == b {
+		return 0
+	}
+	if a > b {
+		return 1
+	}
+	return -1
+}
+
+// cmpNumbers compares two numbers of any of the supported types by value
+func cmpNumbers(a, b any) int {
+	x, y := toNumber(a), toNumber(b)
+	switch {
+	case x.kind == 2 || y.kind == 2:
+		return order(x.float(), y.float())
+	case x.kind == 0 && y.kind == 0:
+		return order(x.i, y.i)
+	case x.kind == 1 && y.kind == 1:
+		return order(x.u, y.u)
+	case x.kind == 0:
+		if x.i < 0 {
+			return -1
+		}
+		return order(uint64(x.i), y.u)
+	default:
+		if y.i < 0 {
+			return 1
+		}
+		return order(x.u, uint64(y.i))
+	}
 }
